@@ -55,6 +55,10 @@ func (s *Struct) Assign(gen Generator, ctx *MethodContext, assignTo *AssignTo, s
 		if fieldMapping.Ignore {
 			continue
 		}
+		if targetField.Name() == "_" {
+			// blank fields cannot be referred to, there is nothing to set.
+			continue
+		}
 		if !targetField.Exported() && ctx.Conf.IgnoreUnexported {
 			continue
 		}
